@@ -35,7 +35,7 @@ PROP = Prop(
 MANIFEST = {
     "text": "Lean theorems over ALL operation histories of the model of kfake's partition log: offsets are contiguous from the high watermark; LSO <= HWM, LSO = HWM when no transaction "
             "is open and = the smallest first offset of an open transaction otherwise; a read_committed fetch, after Kafka's consumer-side aborted-transaction rule, yields exactly the "
-            "committed data of the returned range and nothing at or beyond the LSO, for every offset and byte limit; a retried idempotent batch is answered with its original offset and "
+            "committed data of the returned range (proved for every reachable state, offset and byte limit from an invariant tying the aborted index to the log's abort markers) and nothing at or beyond the LSO; a retried idempotent batch is answered with its original offset and "
             "appends nothing (reusing C29's window refinement); an incremental fetch session omits a partition only if its bounds are what the session recorded and the walk found nothing "
             "to return. The model is tied to the code by differential runs of raw protocol histories against the real kfake (all response fields and ListOffsets bounds after every step), "
             "and an independent ledger Spec is evaluated on the implementation's answers.",
